@@ -4,7 +4,7 @@ from common import *
 from harness.shells import *
 
 LEVEL = 'proof'
-RULE = ('store basis/versions (sample in quick, all in thorough) and generated dictionaries (l >= 7, ECP-only, fused) x the 14 write+read formats x header on/off '
+RULE = ('store basis/versions (a sample: 34 in quick, 300 in thorough, the corpus first) and generated dictionaries (l >= 7, ECP-only, fused) x the 14 write+read formats x header on/off '
         'x element subsets: read(write(b)) must carry the same elements / contracted functions / ECP terms and electron counts, or raise; for gaussian94, nwchem '
         '(and turbomole with electron shells) it must succeed, also through .bz2 files with extension autodetection and through convert_formatted_basis_str/file '
         'against direct export. Non-trivial = distinct (text hash).')
@@ -818,8 +818,8 @@ def tm_ecp_cases(b, rng):
 def run(ctx):
     bse = import_bse()
     R = Result('C03')
-    items = [('%s/%s' % p, p, '%s-%d' % (p[0], ctx.seed)) for p in sample_pairs(ctx, ctx.n(34, 10 ** 6))]
-    for i in range(ctx.n(70, 2500)):
+    items = [('%s/%s' % p, p, '%s-%d' % (p[0], ctx.seed)) for p in sample_pairs(ctx, ctx.n(34, 300))]
+    for i in range(ctx.n(70, 1000)):
         g = genbasis.gen_basis(ctx.rng, kinds=ctx.rng.choice([None, ['highl', 'plain'], ['ecponly', 'ecp', 'plain'], ['pople', 'general'], ['ecpgap', 'ecpsingle', 'ecp', 'plain']]))
         if i % 10 == 7:
             # the two elements whose symbols have three letters (Uue, Ubn), at the end so that the elements stay in increasing order
